@@ -246,7 +246,39 @@ func vpGenChain(D int) (*vpF, Formula) {
 }
 
 // vpGenAny picks the generator according to the parameters.
+// vpGenGroups2: op(Unique(g1), Unique(g2)) with op in {and, or}; each group
+// takes 1, 4, 5 or max consecutive names starting at offset 0..2, optionally
+// with its second and third member swapped (same members, other order).
+func vpGenGroups2(max int) (*vpF, Formula) {
+	sizes := []int{1, 4, 5, max}
+	group := func() (*vpF, Formula) {
+		sz := sizes[zzvp.Choose("usize", len(sizes))]
+		start := zzvp.Choose("ustart", 3)
+		us := make([]int, sz)
+		for i := range us {
+			us[i] = start + i
+		}
+		if sz >= 3 && zzvp.Choose("uswap", 2) == 1 {
+			us[1], us[2] = us[2], us[1]
+		}
+		names := make([]string, sz)
+		for i, u := range us {
+			names[i] = vpVarNames[u]
+		}
+		return &vpF{kind: 9, us: us}, Unique(names...)
+	}
+	a, fa := group()
+	b, fb := group()
+	if zzvp.Choose("op", 2) == 0 {
+		return &vpF{kind: 4, kids: []*vpF{a, b}}, And(fa, fb)
+	}
+	return &vpF{kind: 5, kids: []*vpF{a, b}}, Or(fa, fb)
+}
+
 func vpGenAny(c *vpGenCfg) (*vpF, Formula) {
+	if g := zzvp.Param("groups2", 0); g > 0 {
+		return vpGenGroups2(g)
+	}
 	if w := zzvp.Param("wide", 0); w > 0 {
 		return vpGenWide(w)
 	}
